@@ -268,7 +268,7 @@ class C06(Prop):
         self.ATP = ATP_Store
 
     def extract(self, ctx):
-        return [quorum_consts.run(REPO, LEAN, write_if_changed)]
+        return [quorum_consts.run(REPO, LEAN, write_if_changed, self.m)]
 
     # --- case construction -----------------------------------------------------------------------------------
     @staticmethod
@@ -319,9 +319,12 @@ class C06(Prop):
             return False
         return True
 
-    def _rand_voter(self, rng, bias):
+    def _rand_voter(self, rng, bias, low_conf=False):
         k = rng.choice(bias)
-        c = rng.choice(CF) if rng.random() < 0.85 else rng.choice(["1", "1/2"])
+        if low_conf:                                      # nobody fully confident: relative-confidence rules show up
+            c = rng.choice(["0", "1/4", "1/4", "1/2", "1/2"])
+        else:
+            c = rng.choice(CF) if rng.random() < 0.85 else rng.choice(["1", "1/2"])
         return (k, rng.choice(W), rng.choice(REL), c)
 
     def _rand_custom(self, rng, strat):
@@ -354,7 +357,8 @@ class C06(Prop):
                     ["P", "B"] if shape < 0.9 else ["P", "E", "B", "D", "U", "X"])
             for _ in range(rng.choice([1, 1, 1, 2, 3])):
                 k = rng.choice([1, 2, 3, 3, 4, 5, 5, 6, 7, 7, 0, 8, 9])
-                ballot = [self._rand_voter(rng, bias) for _ in range(k)]
+                low = rng.random() < 0.2
+                ballot = [self._rand_voter(rng, bias, low) for _ in range(k)]
                 if rng.random() < 0.15 and ballot:      # a tie-prone ballot: equal weights, confidence 1
                     ballot = [(kk, "1", "1", "none") for (kk, _, _, _) in ballot]
                 lines.append(self.vote_line(ballot))
